@@ -196,6 +196,7 @@ def source(nodes):
                 a.append(' tal:replace="%s"' % t["replace"])
             if "content" in t:
                 a.append(' tal:content="%s"' % t["content"])
+            a += e.get("metal", [])
             out.append("<" + e["name"] + "".join(a) + ">")
             out.append(source(e["children"]))
             out.append("</" + e["name"] + ">")
@@ -337,14 +338,20 @@ class Model:
             if k:
                 self.last_text, self.ws = saved
             st2 = dict(st_)
-            if "domain" in i:
-                st2["domain"] = i["domain"]
-            if "context" in i:
-                st2["context"] = i["context"]
-            if "target" in i:
-                tv = i["target"]
-                st2["target"] = {"'de'": "de", "'fr'": "fr", "None": None,
-                                 "lang": self.env["lang"]}[tv]
+            layers = [i]
+            if "_reset" in e:
+                # a slot filler: the settings of the place where it was
+                # written, not those of the place where it is rendered
+                st2 = self.initial()
+                layers = e["_reset"] + [i]
+            for ly in layers:
+                if "domain" in ly:
+                    st2["domain"] = ly["domain"]
+                if "context" in ly:
+                    st2["context"] = ly["context"]
+                if "target" in ly:
+                    st2["target"] = {"'de'": "de", "'fr'": "fr", "None": None,
+                                     "lang": self.env["lang"]}[ly["target"]]
             self.elem_inner(e, st2, buf, tctx)
             if k < reps - 1:
                 buf.append(sep)
@@ -412,10 +419,13 @@ class Model:
         if not omit:
             buf.append("</" + e["name"] + ">")
 
+    def initial(self):
+        return {"domain": None, "context": None,
+                "target": self.case["target_language"]}
+
     def run(self):
         buf = []
-        st_ = {"domain": None, "context": None,
-               "target": self.case["target_language"]}
+        st_ = self.initial()
         self.nodes(self.case["nodes"], st_, buf, {"mapping": {}})
         return "".join(str(x) for x in buf), self.log
 
@@ -509,6 +519,259 @@ class I18n(Part):
         return None
 
 
+# --------------------------------------------------------------------------
+# macros x translation settings
+
+def _settings(draw, p):
+    i = {}
+    if draw(st.integers(0, 9)) < p:
+        i["domain"] = draw(st.sampled_from(["d1", "d2", "d3"]))
+    if draw(st.integers(0, 9)) < p:
+        i["context"] = draw(st.sampled_from(["c1", "c2", "c3"]))
+    if draw(st.integers(0, 9)) < p:
+        i["target"] = draw(st.sampled_from(["'de'", "'fr'", "None", "lang"]))
+    return i
+
+
+def _no_repeat(nodes):
+    for n in nodes:
+        if n[0] == "elem":
+            n[1]["tal"].pop("repeat", None)
+            _no_repeat(n[1]["children"])
+    return nodes
+
+
+def _plain(name, i, children, metal=None):
+    e = {"name": name, "attrs": [], "i18n": i, "tal": {},
+         "children": children}
+    if metal:
+        e["metal"] = metal
+    return e
+
+
+@st.composite
+def _content(draw, lo=1):
+    """Content that contains at least one translated thing."""
+    nodes = []
+    for _ in range(draw(st.integers(lo, 2))):
+        c = draw(st.integers(0, 3))
+        if c == 0:
+            nodes.append(["elem", _plain("u", {"translate": draw(
+                st.sampled_from(["", "", "id-x"]))}, [["text", draw(
+                    st.sampled_from(["Hello", "Hello world", "x"]))]])])
+        elif c == 1:
+            nodes.append(["interp", "m0"])
+        else:
+            nodes.append(["elem", draw(element(2, False, set()))])
+    return _no_repeat(nodes)
+
+
+@st.composite
+def macro_cases(draw):
+    mode = draw(st.sampled_from(["external", "external", "internal"]))
+    wraps = [_settings(draw, 5) for _ in range(draw(st.integers(0, 2)))]
+    use_i = _settings(draw, 3)
+    macro_outer = _settings(draw, 5)
+    macro_el = _settings(draw, 3)
+    slots = []
+    for k in range(draw(st.integers(1, 2))):
+        slots.append({
+            "name": "s%d" % k,
+            "wrap": _settings(draw, 5),
+            "own": _settings(draw, 2),
+            "default": draw(_content(0)),
+            "filled": draw(st.integers(0, 3)) != 0,
+            "filler": None,
+            # the slot inside a translated element of the macro: directly,
+            # or inside a named part of it
+            "in_translate": draw(st.sampled_from([0, 0, 1, 2])),
+            "tr_id": draw(st.sampled_from(["", "", "slot-msg"])),
+        })
+    for sl in slots:
+        if sl["filled"]:
+            f = _plain(draw(st.sampled_from(["p", "em"])), _settings(draw, 2),
+                       draw(_content()))
+            if draw(st.integers(0, 3)) == 0:
+                f["i18n"]["translate"] = ""
+            sl["filler"] = f
+    return {
+        "mode": mode, "wraps": wraps, "use": use_i,
+        "macro_outer": macro_outer, "macro_el": macro_el, "slots": slots,
+        "pre": draw(_content(0)), "post": draw(_content(0)),
+        "fn": draw(st.sampled_from(["identity", "bracket", "hostile"])),
+        "implicit_translate": False,
+        "implicit_attributes": draw(st.sampled_from([[], [], ["title"]])),
+        "bindings": {
+            "v0": draw(st.sampled_from(["plain", "<b>&", ""])),
+            "v1": draw(st.sampled_from(["two words", "7"])),
+            "lang": draw(st.sampled_from(["it", None])),
+        },
+        "target_language": draw(st.sampled_from([None, "en"])),
+    }
+
+
+def _macro_tree(case, filled, reset):
+    """The define-macro element; with ``filled`` the fillers stand in place
+    of the slots they fill (marked with the settings they keep)."""
+    import copy
+    kids = list(copy.deepcopy(case["pre"]))
+    for sl in case["slots"]:
+        if filled and sl["filled"]:
+            f = copy.deepcopy(sl["filler"])
+            f["_reset"] = reset
+            inner = ["elem", f]
+        else:
+            md = None if filled else [' metal:define-slot="%s"' % sl["name"]]
+            inner = ["elem", _plain("i", sl["own"], copy.deepcopy(
+                sl["default"]), md)]
+        if sl["in_translate"]:
+            if sl["in_translate"] == 2:
+                inner = ["elem", _plain("b", {"name": "part" + sl["name"]},
+                                        [inner])]
+            w = _plain("span", dict(sl["wrap"], translate=sl["tr_id"]),
+                       [["text", "A "], inner, ["text", " B"]])
+        else:
+            w = _plain("span", sl["wrap"], [inner])
+        kids.append(["elem", w])
+    kids += copy.deepcopy(case["post"])
+    md = None if filled else [' metal:define-macro="main"']
+    return ["elem", _plain("section", case["macro_el"], kids, md)]
+
+
+def _wrapped(wraps, node):
+    for w in reversed(wraps):
+        node = ["elem", _plain("div", w, [node])]
+    return node
+
+
+def macro_sources(case):
+    """(caller source, macro source or None)"""
+    import copy
+    ref = "lib.macros['main']" if case["mode"] == "external" \
+        else "macros['main']"
+    fillers = [["text", "dropped"]]
+    for sl in case["slots"]:
+        if sl["filled"]:
+            f = copy.deepcopy(sl["filler"])
+            f["metal"] = [' metal:fill-slot="%s"' % sl["name"]]
+            fillers.append(["elem", f])
+    use = ["elem", _plain("div", case["use"], fillers,
+                          [' metal:use-macro="%s"' % ref])]
+    caller = _wrapped(case["wraps"], use)
+    macro = ["elem", _plain("body", case["macro_outer"],
+                            [_macro_tree(case, False, None)])]
+    if case["mode"] == "external":
+        return source([caller]), source(
+            [["elem", _plain("html", {}, [macro])]])
+    return source([["elem", _plain("html", {}, [macro, caller])]]), None
+
+
+def macro_expected_nodes(case):
+    reset = list(case["wraps"]) + [case["use"]]
+    used = _macro_tree(case, True, reset)
+    site = _plain("div", case["use"], [used])
+    site["tal"]["omit"] = True
+    caller = _wrapped(case["wraps"], ["elem", site])
+    if case["mode"] == "external":
+        return [caller]
+    # rendered where it is defined as well, with the settings of that place
+    c2 = dict(case, slots=[dict(sl, filled=False) for sl in case["slots"]])
+    inplace = _macro_tree(c2, True, None)
+    macro = ["elem", _plain("body", case["macro_outer"], [inplace])]
+    return [["elem", _plain("html", {}, [macro, caller])]]
+
+
+class Macros(Part):
+    """Translation settings across macro boundaries: a macro body starts
+    from the settings in effect where it is used (not from those around its
+    definition), a slot filler keeps those of the place where it was written
+    (not those of the slot)."""
+    name = "macros"
+    examples = {"quick": 800, "thorough": 30000}
+    floors = {"filler_differs": 0.2, "body_differs": 0.2,
+              "filled_in_translate": 0.15}
+
+    def strategy(self, tier):
+        return macro_cases()
+
+    def _flags(self, case):
+        def eff(layers):
+            st_ = {}
+            for ly in layers:
+                st_.update(ly)
+            return st_
+        site = eff(case["wraps"] + [case["use"]])
+        definition = eff([case["macro_outer"]])
+        out = {"body_differs": site != definition, "filler_differs": False,
+               "filled_in_translate": any(
+                   sl["filled"] and sl["in_translate"]
+                   for sl in case["slots"])}
+        for sl in case["slots"]:
+            if sl["filled"] and eff([site, case["macro_el"], sl["wrap"]]) \
+                    != site:
+                out["filler_differs"] = True
+        return out
+
+    def nontrivial(self, case):
+        return any(self._flags(case).values())
+
+    def labels(self, case):
+        for k, v in self._flags(case).items():
+            if v:
+                yield k
+        yield case["mode"]
+
+    def sample(self, case):
+        a, b = macro_sources(case)
+        return {"caller": a, "macro": b}
+
+    def oracle(self, case):
+        from chameleon import PageTemplate
+        a, b = macro_sources(case)
+        log = []
+        cfg = {"translate": make_translate(case["fn"], log)}
+        if case["implicit_attributes"]:
+            cfg["implicit_i18n_attributes"] = set(
+                case["implicit_attributes"])
+        detail = {"caller": a, "macro": b, "fn": case["fn"],
+                  "bindings": case["bindings"],
+                  "target_language": case["target_language"]}
+        env = dict(case["bindings"])
+        env["m0"] = values.Msg("m-zero")
+        if case["target_language"] is not None:
+            env["target_language"] = case["target_language"]
+        o = run(PageTemplate, a, **cfg)
+        if not o.ok:
+            return Mismatch("macros:compile raises " + o.exc_name,
+                            dict(detail, outcome=o.brief()))
+        t = o.value
+        if b is not None:
+            o = run(PageTemplate, b, **cfg)
+            if not o.ok:
+                return Mismatch("macros:compile raises " + o.exc_name,
+                                dict(detail, outcome=o.brief()))
+            env["lib"] = o.value
+        o = run(t.render, **env)
+        if not o.ok:
+            return Mismatch("macros:render raises " + o.exc_name,
+                            dict(detail, outcome=o.brief()))
+        m = Model(dict(case, nodes=macro_expected_nodes(case)))
+        exp_out, exp_log = m.run()
+        detail.update(got=o.value, expected=exp_out, log=log,
+                      expected_log=exp_log)
+        if [x["msgid"] for x in log] != [x["msgid"] for x in exp_log]:
+            return Mismatch("macros:message ids / number of calls differ",
+                            detail)
+        for x, y in zip(log, exp_log):
+            for k in ("domain", "context", "target_language", "mapping",
+                      "default"):
+                if x[k] != y[k]:
+                    return Mismatch("macros:%s differs" % k, detail)
+        if o.value != exp_out:
+            return Mismatch("macros:output differs", detail)
+        return None
+
+
 CHECK = Check(
     "C10", "exploration",
     rule=("templates from an i18n grammar (depth <= 3): i18n:translate with "
@@ -521,11 +784,13 @@ CHECK = Check(
           "recording translation functions; non-trivial = a translate with a "
           "named child, or settings inherited across >= 2 levels, or a "
           "message object; distinct by sha1"),
-    parts=[I18n()],
+    parts=[I18n(), Macros()],
     assumptions=[
         "the translation function is environment: the same recording "
         "function is given to the model and to the implementation",
-        "macros are not combined with i18n settings here",
+        "macros part: no tal:repeat; slots inside a translated element are "
+        "generated directly or inside a named part, fillers carry no "
+        "i18n:name themselves",
         "interpolations are not generated under implicit_i18n_translate "
         "inside text that is translated implicitly only when static; "
         "dynamic content + i18n:translate=\"\" offers the value with "
